@@ -390,6 +390,19 @@ pub fn limit_versions() -> Vec<String> {
         out.push(format!("1.2.3-a.{}", b));
         out.push(format!("1.2.3+{}", b));
         out.push(format!("{}.{}.{}", b, b, b));
+        // the same identifiers zero-padded (an identifier that fits u64 is the number, one that does
+        // not is kept as written, zeros included; C12-9) and next to other identifier kinds
+        for z in ["0", "00", "000"] {
+            out.push(format!("1.2.3-{}{}", z, b));
+            out.push(format!("1.2.3+{}{}", z, b));
+            out.push(format!("1.2.3-rc.{}{}+{}{}.x", z, b, z, b));
+        }
+    }
+    // identifier character classes: digit-led and mixed identifiers, upper case, zeros
+    for id in ["0a", "a0", "00", "01", "010", "1e3", "0x10", "00a", "A", "Z", "aA", "RC", "rc", "0-", "-0", "0-0", "2-migration"] {
+        out.push(format!("1.2.3-{}", id));
+        out.push(format!("1.2.3+{}", id));
+        out.push(format!("1.2.3-x.{}.y+{}.z", id, id));
     }
     out
 }
